@@ -553,4 +553,13 @@ example :
 
 end Liveness
 
+/-- **The liveness evaluation runs on a ticker of its own** (regenerated fact G8): `UpdateLiveness` -
+like the gossip round, the compaction and the expiry sweep - is the only tracked state operation of its
+`scheduleFunc` task, so "a peer that falls silent always eventually crosses the threshold" does not
+depend on a gossip round completing (a round returns early when a send fails; seed C12d had moved the
+evaluation to the end of the round). -/
+theorem C12_facts_liveness_scheduled :
+    Facts.scheduledAlone = some ["CompactLocal", "RemoveExpired", "UpdateLiveness", "gossipRound"] := by
+  decide
+
 end Piko
